@@ -41,6 +41,6 @@ Definition explain04 (c : case04) : list bool :=
 Definition premises04 (c : case04) : bool :=
   let s := full_schema (j4_user c) in
   match save_json std_lex s (j4_mode c) (j4_cas c) with
-  | Ok (_, c') => wf_jsonb s c' && ids_distinctb s c' && (0 <? c_next_id (j4_cas c)) && lex_tested c'
+  | Ok (_, c') => wf_jsonb s c' && ids_distinctb s c' && refs_wfb s c' && (0 <? c_next_id (j4_cas c)) && lex_tested c'
   | _ => false
   end.
